@@ -452,6 +452,102 @@ def p_norewind_events(h, d):
     return body()
 
 
+def p_cleanup_fails(h, d):
+    """the plan's own cleanup raises (a device error in a finally), whatever ended the body."""
+    det, m1 = d["det"], d["m1"]
+
+    class LimitSwitch(Exception):
+        pass
+
+    def body():
+        yield Msg("open_run")
+        yield Msg("checkpoint")
+        yield Msg("set", m1, 1.0, group="g")
+        yield Msg("wait", None, group="g")
+        yield Msg("sleep", None, 0.1)
+        yield Msg("create", name="primary")
+        yield Msg("read", det)
+        yield Msg("save")
+        yield Msg("sleep", None, 0.05)
+
+    def plan():
+        try:
+            yield from body()
+        finally:
+            yield Msg("null", None, "cleanup")
+            raise LimitSwitch("bad_motor hit its limit switch")
+
+    return plan()
+
+
+def p_norewind_point(h, d):
+    """every point is taken with rewinding switched off (a non-rewindable detector): checkpoint; rewindable False; point;
+    rewindable True; a delay - no checkpoint between the point and the delay."""
+    det = d["det"]
+
+    def body():
+        yield Msg("open_run")
+        for _ in range(3):
+            yield Msg("checkpoint")
+            yield Msg("rewindable", None, False)
+            yield Msg("trigger", det, group="t")
+            yield Msg("wait", None, group="t")
+            yield Msg("create", name="primary")
+            yield Msg("read", det)
+            yield Msg("save")
+            yield Msg("rewindable", None, True)
+            yield Msg("sleep", None, 0.08)
+            yield Msg("null")
+        yield Msg("close_run")
+
+    return body()
+
+
+def p_clearcp_cfg(h, d):
+    """events, clear_checkpoint, then the stream gets a fresh descriptor (configure) and more events."""
+    det = d["det"]
+
+    def point():
+        yield Msg("trigger", det, group="t")
+        yield Msg("wait", None, group="t")
+        yield Msg("create", name="primary")
+        yield Msg("read", det)
+        yield Msg("save")
+
+    def body():
+        yield Msg("open_run")
+        yield Msg("checkpoint")
+        yield from point()
+        yield from point()
+        yield Msg("clear_checkpoint")
+        yield Msg("configure", det)
+        yield from point()
+        yield from point()
+        yield Msg("close_run")
+
+    return body()
+
+
+def p_late_wait2(h, d):
+    """a motion started BEFORE the run is opened and waited for inside it."""
+    det, m1 = d["det"], d["m1"]
+
+    def body():
+        yield Msg("checkpoint")
+        yield Msg("set", m1, 1.0, group="pre")
+        yield Msg("open_run")
+        yield Msg("checkpoint")
+        yield Msg("trigger", det, group="t")
+        yield Msg("wait", None, group="t")
+        yield Msg("wait", None, group="pre")
+        yield Msg("create", name="primary")
+        yield Msg("read", det)
+        yield Msg("save")
+        yield Msg("close_run")
+
+    return body()
+
+
 def p_clearcp(h, d):
     """a non-resumable section between clear_checkpoint and the next checkpoint, with cleanup."""
     det, m1 = d["det"], d["m1"]
@@ -603,7 +699,8 @@ def make_spaced(spacing, n_blocks=3, tail=0):
     return builder
 
 
-def make_clearcp(pos, cleanup_shape="finalize", inplan_pause_after=None, toggle_rewindable=False, second_run=False):
+def make_clearcp(pos, cleanup_shape="finalize", inplan_pause_after=None, toggle_rewindable=False, second_run=False,
+                 checkpoints_inside=False):
     """clear_checkpoint after `pos` points; the rest of the run is non-resumable; cleanup in a finally.
     inplan_pause_after=k: the plan itself asks for a pause (Msg('pause')) after the k-th message of the section."""
 
@@ -630,6 +727,10 @@ def make_clearcp(pos, cleanup_shape="finalize", inplan_pause_after=None, toggle_
 
             def section():
                 for k in range(pos, pos + 2):
+                    if checkpoints_inside:
+                        # a 'checkpoint' after clear_checkpoint does not make the plan resumable again; it is where a
+                        # deferred pause is served (and, the plan not being resumable, turned into an abort)
+                        yield Msg("checkpoint")
                     if toggle_rewindable and k == pos:
                         # switching rewinding off and on again does not bring the cleared checkpoint back
                         yield Msg("rewindable", None, False)
@@ -830,6 +931,10 @@ CORPUS = {
     "nested": p_nested,
     "fly": p_fly,
     "clearcp": p_clearcp,
+    "cleanup_fails": p_cleanup_fails,
+    "norewind_point": p_norewind_point,
+    "clearcp_cfg": p_clearcp_cfg,
+    "late_wait2": p_late_wait2,
     "mon_cfg": p_mon_cfg,
     "norewind_events": p_norewind_events,
     "collect_sd": p_collect_sd,
@@ -851,6 +956,7 @@ CORPUS = {
     "clearcp1": make_clearcp(1),
     "clearcp2": make_clearcp(2, "tryfinally"),
     "clearcp_rw": make_clearcp(1, "finalize", toggle_rewindable=True),
+    "clearcp_cp": make_clearcp(1, "finalize", checkpoints_inside=True),
     "clearcp_2runs": make_clearcp(1, "tryfinally", second_run=True),
     **{f"clearcp_ip{pos}_{k}": make_clearcp(pos, "finalize" if (pos + k) % 2 == 0 else "tryfinally", inplan_pause_after=k)
        for pos in (0, 1, 2) for k in range(0, 16)},
